@@ -112,6 +112,16 @@ PROPS["C16"] = dict(
     assumptions=["equality is judged on the fields that travel on the wire (WorkSpaceProof.Ordinal/Error are not transmitted)"],
 )
 
+PROPS["C20"] = dict(
+    pkgs=["api"], level="exploration",
+    quick=dict(checks=8000, shards=8, timeout=500),
+    thorough=dict(checks=400000, shards=16, timeout=2400),
+    technique="property-based testing: reference decision (net/netip) for the allow-list through the real 403 wrapper with httptest; chain-library oracle for binding targets and addresses; independent integer formatter and round trip for amounts",
+    level_text="Generated remote addresses / whitelist / LAN settings are pushed through accessControlHandler and judged by a decision function written from the statement (direction: served => allowed); listed workspaces are compared with massutil's binding-target functions; amounts with an independent formatter, the canonical pattern and the round trip. Exploration.",
+    level_note="Trusted: net/netip parsing as the meaning of 'remote address'; mass-core massutil as the authority for binding targets and address encoding; math/big.",
+    assumptions=["gRPC loopback-only listening (api/server.go) is a constant and is not exercised", "non-plain parser inputs (signs, empty parts) are reported as labels only: the statement covers rendered amounts"],
+)
+
 META = dict(
     na_default="check not built yet in this session (work in progress; see DESIGN.md §4) - not a claim that the technique cannot apply",
     hooks=dict(guard="verif", enable="go test -tags verif (the driver ./check always builds with -tags verif through -overlay/-modfile, see DESIGN.md §2.2)",
